@@ -20,7 +20,7 @@ PAYLOADS = [
     '{%s}' % SET, "'+str(%s)+'" % SET, "x' if %s else '" % SET, "'%s'" % SET, "\\", "\\'", "'\\", "a'\nb", "'; %s; '" % SET, "__import__ ('os').system ('true')",
     "' + self.%s + '" % CANARY, "{titles}", "{0}", "%(x)s", "' # ", '" # ', "\\x27+%s+\\x27" % SET, "\\N{APOSTROPHE}+%s" % SET,
     # wildcard literals (PatternToken) with backslashes; texts that look like formulas after a blank
-    'ok \U0001F600', '\U0001F4CA{x}', 'stored as _xlfn.IFS by Excel', '_xlfn.', '_xlws.FILTER', 'what?""', '*""', '""*', '?"', '"*"', 'a*""""b', "it's", 'say "hi"',
+    'red,green ,blue', 'x,y', 'a , b', 'US$ 5', 'ok \U0001F600', '\U0001F4CA{x}', 'stored as _xlfn.IFS by Excel', '_xlfn.', '_xlws.FILTER', 'what?""', '*""', '""*', '?"', '"*"', 'a*""""b', "it's", 'say "hi"',
     'a?\\n', '*\\t', '?\\\\', '*\\x41', 'a*\\', '?\\', '~*\\', '*\\"', ' =1+1', '\n="a"&"b"', '  =A1*2 ', '\t=%s' % SET, ' =%s' % SET,
 ]
 
